@@ -54,4 +54,9 @@ def expect(A, call):
     if kind == 2:      # analog(frames)
         bad = call['arg.nbFrames'] != A['nbFrames'] or call['arg.nbFrames'] == 0 or call['arg.nbSubframes'] != A['sub'] or call['arg.nbNames'] == 0 or call['arg.nameExists']
         return ('reject', {INVALID_ARGUMENT}) if bad else ('accept',)
+    if kind in (6, 7):  # point(name) / analog(name): with frames present this adds a column to the existing frames, so the column
+                        # rule applies (name already exists -> invalid_argument, otherwise accepted); without frames it is a
+                        # declaration, about which the statement says nothing
+        if A['nbFrames'] == 0: return ('any',)
+        return ('reject', {INVALID_ARGUMENT}) if call['arg.nameExists'] else ('accept',)
     return ('any',)
